@@ -130,6 +130,23 @@ static void ev_path_classes(H3Index a, int K, int per) {
     }
     free(d);
 }
+/* lines across a pentagon's base cell: for every ordered pair of distinct base cells next to it, `nper` random (origin, target)
+ * pairs within K cells of the pentagon.  The samples of such a line fall into the pentagon's base cell seen from a neighbouring
+ * origin: the reverse rotation tables of localIjkToCell, entry by (direction of the origin's base cell, leading digit). */
+static void ev_path_across(H3Index pent, int K, int nper) {
+    int64_t sz; maxGridDiskSize(K, &sz); H3Index *d = calloc(sz, sizeof(H3Index)); if (gridDisk(pent, K, d)) { free(d); return; }
+    int pb = getBaseCellNumber(pent); int nbc[8], nn = 0;
+    for (int64_t i = 0; i < sz; i++) if (d[i]) { int b = getBaseCellNumber(d[i]); if (b == pb) continue; int k; for (k = 0; k < nn; k++) if (nbc[k] == b) break; if (k == nn && nn < 8) nbc[nn++] = b; }
+    for (int x = 0; x < nn; x++) for (int y = 0; y < nn; y++) if (x != y) {
+        int got = 0, tries = 0;
+        while (got < nper && tries++ < nper * 400) {
+            H3Index a = d[vt_randn(sz)], b = d[vt_randn(sz)]; if (!a || !b || getBaseCellNumber(a) != nbc[x] || getBaseCellNumber(b) != nbc[y]) continue;
+            ev_path(a, b); got++;
+        }
+    }
+    free(d);
+}
+
 int main(int argc, char **argv) {
     if (argc == 6 && !strcmp(argv[1], "all")) {
         int res = atoi(argv[2]), no = atoi(argv[3]); vt_seed(strtoull(argv[4], 0, 10) + 9); vt_open(argv[5]);
@@ -176,9 +193,13 @@ int main(int argc, char **argv) {
         for (int res = 0; res <= 15; res++) {
             CellVec cv = {0};
             cv_pentagon_strata(&cv, res, quick ? 1 : 2); cv_random_cells(&cv, res, quick ? 6 : 30); if (res >= 2) cv_seam_cells(&cv, res, quick ? 1 : 3); cv_sparse_digit_sample(&cv, res, quick ? 4 : 30);
+            int64_t nplain = cv.n; cv_coarse_boundary_cells(&cv, res, quick ? 1 : 4);
             for (int64_t i = 0; i < cv.n; i++) {
-                if (quick && (i % 3) != (res % 3)) continue;
+                if (quick && i < nplain && (i % 3) != (res % 3)) continue;
                 H3Index o = cv.v[i];
+                if (i >= nplain) {   /* on a coarse-cell border: every neighbour and second neighbour, both directions */
+                    H3Index d2[19] = {0}; gridDisk(o, 2, d2); for (int q = 0; q < 19; q++) if (d2[q]) { ev_dist(o, d2[q]); if (q % 3 == 0) ev_localij(o, d2[q]); }
+                    ev_dist(o, walk(o, 5 + (int)vt_randn(12))); continue; }
                 int k = quick ? 4 : 6; int64_t sz; maxGridDiskSize(k, &sz); H3Index *d = calloc(sz, sizeof(H3Index)); gridDisk(o, k, d);
                 for (int64_t q = 0; q < sz; q++) if (d[q] && vt_randn(quick ? 6 : 3) == 0) { ev_dist(o, d[q]); ev_localij(o, d[q]); }
                 free(d);
@@ -200,22 +221,42 @@ int main(int argc, char **argv) {
            resolutions) against targets of every (base cell, leading digit) class within K steps */
         { H3Index p0[12]; getPentagons(0, p0);
           for (int res = 2; res <= (quick ? 3 : 5); res++) for (int pi = 0; pi < 12; pi++) {
-              if (quick && res == 3 && (pi % 3)) continue;
               int bc = getBaseCellNumber(p0[pi]); int K = res == 2 ? 20 : res == 3 ? 26 : 45;
               for (int lead = 2; lead <= 6; lead++) {
+                  if (quick && res == 3 && (pi % 3)) break;
                   uint64_t h = ((uint64_t)1 << 59) | ((uint64_t)res << 52) | ((uint64_t)bc << 45);
                   int z = (int)vt_randn(res);
                   for (int r = 1; r <= 15; r++) { uint64_t dg = r > res ? 7 : r <= z ? 0 : r == z + 1 ? (uint64_t)lead : vt_randn(7); h |= dg << (3 * (15 - r)); }
                   if (isValidCell(h)) ev_path_classes(h, K, quick ? 3 : 6);
               }
+              /* origins in each base cell next to the pentagon base cell: the line to a target on the far side crosses the
+                 pentagon's base cell (the reverse rotation tables; the two polar pentagons have their own) */
+              if (res >= 3 || !quick) {
+                  int polar = (bc == 4 || bc == 117);
+                  if (quick && !polar && (pi + strtoull(argv[3], 0, 10)) % 4) continue;
+                  H3Index nb[7] = {0}; gridDisk(p0[pi], 1, nb);
+                  for (int q = 0; q < 7; q++) if (nb[q] && nb[q] != p0[pi]) {
+                      for (int rep = 0; rep < (polar ? 2 : 1); rep++) {
+                          uint64_t h = ((uint64_t)1 << 59) | ((uint64_t)res << 52) | ((uint64_t)getBaseCellNumber(nb[q]) << 45);
+                          for (int r = 1; r <= 15; r++) { uint64_t dg = r > res ? 7 : vt_randn(7); h |= dg << (3 * (15 - r)); }
+                          if (isValidCell(h)) ev_path_classes(h, K + 4, quick ? 2 : 5);
+                      }
+                  }
+              }
           } }
+        { H3Index p0[12]; getPentagons(0, p0); uint64_t sd = strtoull(argv[3], 0, 10);
+          for (int res = 2; res <= (quick ? 3 : 4); res++) { H3Index pr[12]; getPentagons(res, pr);
+              for (int pi = 0; pi < 12; pi++) { int bc = getBaseCellNumber(pr[pi]); int polar = bc == 4 || bc == 117;
+                  if (quick && !polar && (pi + sd) % 4) continue;
+                  ev_path_across(pr[pi], res == 2 ? 7 : res == 3 ? 16 : 40, (polar ? (quick ? 500 : 3000) : (quick ? 60 : 400)) / (res == 4 ? 10 : 1)); } } }
         /* all pairs within k<=3(4) for cells of r<=2 (sampled origins), strata at all r, long paths at r>=5 */
         for (int res = 0; res <= 15; res++) {
             CellVec cv = {0};
             cv_pentagon_strata(&cv, res, quick ? 1 : 2); cv_random_cells(&cv, res, quick ? 8 : 40); if (res >= 2) cv_seam_cells(&cv, res, quick ? 1 : 3); cv_sparse_digit_sample(&cv, res, quick ? 4 : 30);
             if (res <= 2) { CellVec all = {0}; cv_all_cells(&all, res); for (int64_t i = 0; i < all.n; i += (res == 2 ? (quick ? 40 : 6) : (quick ? 6 : 1))) cv_push(&cv, all.v[i]); cv_free(&all); }
+            int64_t nplain = cv.n; cv_coarse_boundary_cells(&cv, res, quick ? 1 : 4);
             for (int64_t i = 0; i < cv.n; i++) {
-                if (quick && res > 2 && (i % 3) != (res % 3)) continue;
+                if (quick && res > 2 && i < nplain && (i % 3) != (res % 3)) continue;
                 H3Index a = cv.v[i];
                 int k = res <= 2 ? (quick ? 3 : 4) : 2; int64_t sz; maxGridDiskSize(k, &sz); H3Index *d = calloc(sz, sizeof(H3Index)); gridDisk(a, k, d);
                 for (int64_t q = 0; q < sz; q++) if (d[q] && (res <= 2 ? vt_randn(quick ? 3 : 1) == 0 : vt_randn(2) == 0)) ev_path(a, d[q]);
